@@ -119,7 +119,25 @@ func gen(t *rapid.T) pairsim.Scenario {
 	}
 	n := rapid.IntRange(1, 12).Draw(t, "nops")
 	var observes []int
-	for i := 0; i < n; i++ {
+	if sc.Cli.Limit <= 2 && rapid.IntRange(0, 2).Draw(t, "handover") == 0 {
+		// the per-endpoint limit hands the slot of a finishing request to the first waiter: Limit
+		// requests for one path hold the slots, a further one waits, and its deadline falls on the
+		// instant at which a holder's response arrives (or a millisecond next to it); 2-10 such rounds
+		rounds := rapid.IntRange(2, 10).Draw(t, "hrounds")
+		for k := 0; k < rounds; k++ {
+			slow := rapid.SampledFrom([]int{20, 50}).Draw(t, "hslow")
+			first := len(sc.Ops)
+			for h := 0; h < sc.Cli.Limit; h++ {
+				sc.Ops = append(sc.Ops, pairsim.Op{Kind: "get", Down: 1, DeadlineMs: 10000, Async: true, SlowMs: slow, PathRef: first + 1})
+			}
+			sc.Ops[first].PathRef = 0
+			at := 2*sc.Link.LatencyMs + slow + rapid.SampledFrom([]int{-1, 0, 0, 0, 0, 1}).Draw(t, "hoff")
+			sc.Ops = append(sc.Ops, pairsim.Op{Kind: "get", Down: 1, DeadlineMs: at, PathRef: first + 1},
+				pairsim.Op{Kind: "sleep", Ms: 100})
+		}
+		sc.Link.FaultsAB, sc.Link.FaultsBA = nil, nil
+	}
+	for i := len(sc.Ops); i < n; i++ {
 		kinds := []string{"get", "post", "put", "delete", "write", "observe", "ping", "sleep"}
 		if len(observes) > 0 {
 			kinds = append(kinds, "cancelobs", "cancelobs")
@@ -178,6 +196,12 @@ func TestCheck(t *testing.T) {
 			cls := []string{"history/" + sc.Transport}
 			if !tr.SizesRead {
 				cls = append(cls, "history/connection-closed-before-readout")
+			}
+			for _, op := range sc.Ops {
+				if op.PathRef > 0 {
+					cls = append(cls, "history/waiter-whose-deadline-falls-on-the-hand-over-of-a-limit-slot")
+					break
+				}
 			}
 			r.Case("history", key, func() any { return sc }, cls...)
 		}
